@@ -65,7 +65,7 @@ def main(tier):
         per.append({'search': label, 'solo_states': nsolo, 'solo_transitions': tsolo, 'states': len(s.states), 'transitions': s.transitions,
                     'fixpoint': s.complete, 'levels': s.levels_done, 'states_with_all_clients_live': both_live, 'conformance_traces': n,
                     'solo_automaton_entries': {str(i): len(d) for i, d in delta.items()}, 'wall_s': round(time.time() - t0, 1)})
-        if both_live < 10 and not run.violations:
+        if both_live < 10 and not run.violations and not run.capped:
             raise common.HarnessError('vacuous: clients were almost never live together in ' + label)
         samples.append({'search': label, 'history': [{'event': proto.ev_str(a), 'output': c} for a, b, c in s.trace(len(s.states) - 1)]})
     # ---- history independence for a newcomer (merge-soundness differential) on a rich solo alphabet
@@ -84,7 +84,7 @@ def main(tier):
         for text, rep in bad:
             run.violation('C07.history-dependence', '[%s] %s' % (label, text), rep, dedup='merge|' + text[:60])
         per.append({'search': label, 'states': len(s.states), 'transitions': s.transitions, 'fixpoint': s.complete, 'merged_history_pairs_compared': n})
-        if n < 50 and not run.violations:
+        if n < 50 and not run.violations and not run.capped:
             raise common.HarnessError('vacuous: only %d merged history pairs were compared' % n)
     sweep = pcommon.serial_sweep(run, ('C07.',)) if not run.out_of_time(40) else {}
     if not run.out_of_time(40):
@@ -169,9 +169,13 @@ def direct_differential(run, tier):
         for xn, xs in X.items():
             res, status, err, ex = srv.trace(concrete(srv, xs), 0)
             if status != 'ok':
+                if run.violations or run.capped:
+                    continue
                 raise common.HarnessError('direct differential: baseline %s died: %s' % (xn, status))
             base = about1(res, xs)
             if not any(l for _, ls in base for l in ls):
+                if run.violations or run.capped:
+                    continue
                 raise common.HarnessError('direct differential: baseline %s wrote nothing about client 1' % xn)
             for yn, ys in Y.items():
                 for mix in interleavings(xs, ys):
